@@ -72,7 +72,7 @@ CLAIMS = {
             "Bounded stand-in (labelled bounded): programs x option sets; CP-SAT's own nondeterminism is not enumerated.",
             'Trusted: game data shipped with draftsman, Euclidean centre distance for wire length.',
             'DESIGN §4 C08'),
-    "C18": ("other", "bounded check of the real pipeline's blueprints with --power-poles T against S4 (supply areas, copper reach, energy sources)",
+    "C18": ("other", "P: LayoutPlanner._trim_power_poles removes only compiler-added poles that cover nothing; every copper wire the emitter adds is guarded by the reach of both poles (AST control dependence) + bounded check of the real pipeline's blueprints with --power-poles T against S4 (supply areas, copper reach, energy sources)",
             "Bounded stand-in; on the pinned tree per-consumer coverage and grid connectivity are recorded known findings (KF-C18-*), while coverage collapse, missing grid, over-long copper wires and stray poles are violations.",
             "Trusted: game data shipped with draftsman.",
             "DESIGN §4 C18"),
